@@ -82,6 +82,7 @@ type Scenario struct {
 	Reloader   bool         `json:"reloader,omitempty"` // run with NewReloaderFromConfigFile
 	Family     string       `json:"family,omitempty"`   // generator family (classification only)
 	Secret     bool         `json:"secret,omitempty"`   // the outputs use a shared key: every upstream connection starts with the Forward handshake
+	RotateMs   int          `json:"rotateMs,omitempty"` // upstream.maxDuration in ms (0 = 30 min): periodic reconnection, i.e. the client's soft stop with chunks in flight
 	FlushMs    int          `json:"flushMs,omitempty"`  // defs.IntermediateFlushInterval in ms (0 = 20): a long interval lets chunks fill up to the byte limit
 	Gens       []Generation `json:"gens"`
 }
@@ -203,10 +204,17 @@ func configText(sc Scenario, root string, servers []string, variant string) stri
 	b.WriteString("outputBufferPairs:\n")
 	for i, mode := range sc.Modes {
 		hidden := "[kind, extradata, facility, pid, time]"
-		b.WriteString(fmt.Sprintf("  - name: out%d\n    buffer:\n      type: hybridBuffer\n      rootPath: %s\n      maxBufSize: %s\n    output:\n      type: fluentdForward\n      serialization:\n        environmentFields: [host, app]\n        hiddenFields: %s\n      messageMode: %s\n      upstream:\n        address: %s\n        tls: false\n        secret: \"%s\"\n        maxDuration: 30m\n",
-			i, filepath.Join(root, fmt.Sprintf("out%d", i)), maxBuf, hidden, mode, servers[i], secretOf(sc)))
+		b.WriteString(fmt.Sprintf("  - name: out%d\n    buffer:\n      type: hybridBuffer\n      rootPath: %s\n      maxBufSize: %s\n    output:\n      type: fluentdForward\n      serialization:\n        environmentFields: [host, app]\n        hiddenFields: %s\n      messageMode: %s\n      upstream:\n        address: %s\n        tls: false\n        secret: \"%s\"\n        maxDuration: %s\n",
+			i, filepath.Join(root, fmt.Sprintf("out%d", i)), maxBuf, hidden, mode, servers[i], secretOf(sc), rotation(sc)))
 	}
 	return b.String()
+}
+
+func rotation(sc Scenario) string {
+	if sc.RotateMs > 0 {
+		return fmt.Sprintf("%dms", sc.RotateMs)
+	}
+	return "30m"
 }
 
 const sharedKey = "verif-shared-key"
